@@ -63,6 +63,39 @@ def strip_payload(toks):
     return [t[:-1] if t[0] in ("kfirst", "kcont", "iterm") else t for t in toks]
 
 
+def kitty_payload_errors(toks):
+    """A kitty terminal displays a transmission only if its data decodes: base64, zlib when o=z,
+    and s*v*bytes-per-pixel bytes for f=24/32.  Returns a message for the first transmission that
+    a terminal would reject (the cells of that placement are then never covered)."""
+    import base64
+    import zlib
+    i, n = 0, 0
+    while i < len(toks):
+        t = toks[i]
+        if t[0] != "kfirst":
+            i += 1
+            continue
+        keys, more, data = t[1], t[2], t[4]
+        i += 1
+        while more and i < len(toks) and toks[i][0] == "kcont":
+            more, data = toks[i][1], data + toks[i][3]
+            i += 1
+        n += 1
+        try:
+            raw = base64.standard_b64decode(data)
+            if keys.get("o") == "z":
+                raw = zlib.decompress(raw)
+            elif keys.get("o") is not None:
+                return f"transmission {n}: unknown compression o={keys['o']!r}"
+        except Exception as e:  # noqa: BLE001
+            return f"transmission {n}: payload does not decode (o={keys.get('o')!r}): {type(e).__name__}"
+        if keys.get("f") in (24, 32) and keys.get("s") and keys.get("v"):
+            want = keys["s"] * keys["v"] * (3 if keys["f"] == 24 else 4)
+            if len(raw) != want:
+                return f"transmission {n}: {len(raw)} bytes of pixel data for s={keys['s']} v={keys['v']} f={keys['f']} ({want} expected)"
+    return None
+
+
 def evaluate(cases, tag):
     """Returns (codes per case, lex_errors per case, impl results, infrastructure errors)."""
     impl = core.run_impl_parallel("impl_render.py", cases)
@@ -74,9 +107,17 @@ def evaluate(cases, tag):
             lexerr[i] = "render raised " + r["error"]
             continue
         try:
-            toks = strip_payload(lexer.lex(r["out"]))
+            full = lexer.lex(r["out"])
+            toks = strip_payload(full)
         except lexer.LexError as e:
             lexerr[i] = f"unlexable output: {e}"
+            continue
+        bad = kitty_payload_errors(full) if c["style"] == "kitty" else None
+        if bad:
+            lexerr[i] = f"a kitty terminal rejects the render's data: {bad}"
+            continue
+        if r.get("pinned_sizes") and len({tuple(x) for x in r["pinned_sizes"]}) > 1:
+            lexerr[i] = f"the image's rendered size changed DURING one render: {r['pinned_sizes']}"
             continue
         r["toks"] = toks
         terms.append(case_term(c, r, toks))
